@@ -118,8 +118,10 @@ class Ctx:
         self.t0 = time.time()
         self.notes = []
 
+        self.boost = False       # set when a second tie is not in force: search as hard as the thorough tier does
+
     def scale(self, quick, thorough):
-        return thorough if self.tier == "thorough" else quick
+        return thorough if (self.tier == "thorough" or self.boost) else quick
 
 
 def load_known():
@@ -163,6 +165,77 @@ def lake_build(targets, timeout):
             return False, out
         time.sleep(2)
     raise Infrastructure("lake build " + " ".join(targets) + " failed without a Lean error in the project's files: " + out[-600:])
+
+
+def axiom_audit(name, targets, thms):
+    """#print axioms for every theorem; returns (discharged, problems, axioms_seen)"""
+    tmpd = os.path.join(LEAN, ".lake", "audit")
+    os.makedirs(tmpd, exist_ok=True)
+    f = os.path.join(tmpd, f"Audit_{name}.lean")
+    with open(f, "w") as fh:
+        for t in targets:
+            fh.write(f"import {t}\n")
+        for th in thms:
+            fh.write(f"#print axioms {th}\n")
+    rc, out = sh(["lake", "env", "lean", f], cwd=LEAN, timeout=1800)
+    if rc != 0:
+        return 0, ["axiom audit failed to run: " + out[-300:]], {}
+    seen = {}
+    for m in re.finditer(r"^'(.+)' depends on axioms: \[([^\]]*)\]", out, re.M):
+        seen[m.group(1)] = [a.strip() for a in m.group(2).replace("\n", " ").split(",") if a.strip()]
+    for m in re.finditer(r"^'(.+)' does not depend on any axioms", out, re.M):
+        seen[m.group(1)] = []
+    problems, ok = [], 0
+    for th in thms:
+        ax = seen.get(th)
+        if ax is None:
+            problems.append(f"audit: no #print axioms output for {th}")
+        elif set(ax) - ALLOWED_AXIOMS:
+            problems.append(f"audit: {th} depends on disallowed axioms {sorted(set(ax) - ALLOWED_AXIOMS)}")
+        else:
+            ok += 1
+    return ok, problems, seen
+
+
+def second_tie(prop, tie, evidence):
+    """A SECOND tie between code and model, beside the correspondence check: definitions generated from the Python source by a translator
+    (tie['translator']) and Lean theorems (tie['targets']) that the generated definitions equal the hand-written model's.  Returns
+    'in force' or 'not in force: <why>'.  Not in force is NOT a broken obligation of the property — the property's theorems are about the
+    hand-written model, which stays tied to the code by the correspondence check; it makes the check search harder (ctx.boost) and is
+    recorded in the evidence."""
+    why = None
+    rc, out = sh(["/venv/bin/python", os.path.join(HERE, tie["translator"])])
+    evidence["second_tie_translator"] = (out.strip().splitlines() or [""])[-1][:200]
+    if rc != 0:
+        why = f"translator exit {rc} ({'a function uses a construct outside the translated subset' if rc == 3 else 'failed'}): " + evidence["second_tie_translator"]
+    thms = []
+    if why is None:
+        try:
+            built, out = lake_build(tie["targets"], 3600)
+        except Infrastructure as e:
+            built, out = False, str(e)
+        if not built:
+            errs = [l for l in out.splitlines() if "error" in l][:4]
+            why = "the tie theorems no longer check against the regenerated definitions: " + " | ".join(errs)[:600]
+    if why is None:
+        for t in tie["targets"]:
+            thms += props_theorems(t.split(".")[-1])
+        ok, problems, _ = axiom_audit(prop + "_tie", tie["targets"], thms)
+        for path in lean_sources_for(prop, tie["targets"]):
+            m = FORBIDDEN.search(strip_comments(open(path).read()))
+            if m:
+                problems.append(f"forbidden construct {m.group(0).strip()!r} in {os.path.relpath(path, VERIF)}")
+        if problems:
+            why = "; ".join(problems)[:600]
+    if why is None and tie.get("validate"):
+        # the translator is the trusted piece of this tie: the generated definitions are run against the real functions
+        rc, out = sh(["/venv/bin/python", os.path.join(HERE, tie["validate"])], timeout=900)
+        evidence["second_tie_translator_validation"] = " / ".join(out.strip().splitlines()[-3:])[:300]
+        if rc != 0:
+            why = "generated definitions and the Python functions disagree (or could not be compared): " + evidence["second_tie_translator_validation"]
+    evidence["second_tie"] = {"what": tie["what"], "targets": tie["targets"], "theorems": thms,
+                              "status": "in force" if why is None else "not in force: " + why}
+    return evidence["second_tie"]["status"], thms
 
 
 def build_and_audit(prop, mod, ctx, evidence):
@@ -232,6 +305,17 @@ def build_and_audit(prop, mod, ctx, evidence):
         if m:
             broken.append(f"forbidden construct {m.group(0).strip()!r} in {os.path.relpath(path, VERIF)}")
             proofs_ok = False
+    tie = getattr(mod, "SECOND_TIE", None)
+    ctx.second_tie = None
+    if tie:
+        status, tie_thms = second_tie(prop, tie, evidence)
+        ctx.second_tie = status
+        if status == "in force":
+            obligations += len(tie_thms)
+            discharged += len(tie_thms)
+            thms = thms + tie_thms
+        else:
+            ctx.boost = True
     evidence["obligations"] = obligations
     evidence["discharged"] = discharged if proofs_ok else min(discharged, max(obligations - 1, 0))
     evidence["theorems"] = thms
@@ -372,6 +456,9 @@ def main():
         fh.write(text)
     for l in lines:
         print(l)
+    if getattr(ctx, "second_tie", None) and ctx.second_tie != "in force":
+        print(f"NOTE property={prop} second tie (definitions translated from the Python source) {ctx.second_tie[:300]} — the property's theorems "
+              "stay tied to the code by the correspondence check; the search ran at thorough scale")
     print(f"{prop} tier={args.tier} seed={args.seed}: obligations={coverage.get('obligations')} discharged={coverage.get('discharged')} "
           f"evaluations={coverage['evaluations']} disagreements={len(corr_bad)} violations={n_viol} wall={wall:.1f}s")
     return exit_code
